@@ -356,13 +356,17 @@ def handwritten_features_section(ctx):
                {"name": "gravecomb", "unicodes": [0x300], "width": 0, "contours": [], "anchors": [("_top", Fr(0), Fr(500)), ("top", Fr(0), Fr(700))]}]
     gn = [g["name"] for g in glyphs]
     TAGS = ["kern", "mark", "mkmk", "curs"]
-    MARKERS = [("none", ""), ("marker", "    # Automatic Code\n"), ("mis-cased", "    # automatic code\n"), ("marker-after", None)]
+    # ("nested": the comment stands inside a named lookup block of the feature, not directly in the feature block -- markers are
+    # honoured "only in top-level feature blocks", so this feature counts as hand-written without a marker)
+    MARKERS = [("none", ""), ("marker", "    # Automatic Code\n"), ("mis-cased", "    # automatic code\n"), ("marker-after", None), ("nested", "nested")]
     for i in range(ctx.budget(len(TAGS) * len(MARKERS), 2 * len(TAGS) * len(MARKERS))):
         tag = TAGS[i % len(TAGS)]
         mk, mtxt = MARKERS[(i // len(TAGS)) % len(MARKERS)]
         lib = ["ufoLib2", "defcon"][(i // (len(TAGS) * len(MARKERS))) % 2]
         body = "    pos a o -7;\n"
         block = "feature %s {\n%s} %s;\n" % (tag, (body + "    # Automatic Code\n") if mtxt is None else (mtxt + body), tag)
+        if mk == "nested":
+            block = "feature %s {\n    lookup manual_%s {\n        pos a o -7;\n        # Automatic Code\n    } manual_%s;\n} %s;\n" % (tag, tag, tag, tag)
         fea = "languagesystem DFLT dflt;\nlanguagesystem latn dflt;\n" + block
         desc = {"glyphs": glyphs, "features": fea, "kerning": {("A", "V"): Fr(-50)},
                 "lib": {"public.openTypeCategories": {"acutecomb": "mark", "gravecomb": "mark", "a": "base", "o": "base", "A": "base", "V": "base"}}}
@@ -381,7 +385,11 @@ def handwritten_features_section(ctx):
                 blocks.setdefault(st.name, []).append([x.asFea() for x in st.statements if not isinstance(x, ast.Comment)])
         mine = blocks.get(tag, [])
         has_marker = mk in ("marker", "marker-after")
-        if not has_marker:
+        if mk == "nested":
+            if len(mine) != 1 or len(mine[0]) != 1 or not mine[0][0].startswith("lookup manual_%s" % tag) or "pos a o -7;" not in mine[0][0]:
+                ctx.spec_failure(dict(case, blocks=mine), "the hand-written %s feature (a comment inside its nested lookup is not a marker) was duplicated, "
+                                                          "added to or lost its rule: %r" % (tag, mine))
+        elif not has_marker:
             if len(mine) != 1 or mine[0] != ["pos a o -7;"]:
                 ctx.spec_failure(dict(case, blocks=mine), "the hand-written %s feature (no marker) was duplicated or added to: %r" % (tag, mine))
         else:
